@@ -67,8 +67,9 @@ pub struct Fault {
 
 #[derive(Clone, Debug, Serialize, Deserialize)]
 pub struct Scenario {
-    /// generated with the trigger of the known finding `wildcard-listener-backlog-per-address`
-    /// avoided: every wildcard listener is connected to under one destination address only
+    /// true = the trigger of `wildcard-listener-backlog-per-address` (fixed, f6c7a1b) is avoided:
+    /// every wildcard listener is connected to under one destination address only. No longer
+    /// generated; kept so that recorded replay files parse and behave as recorded
     #[serde(default)]
     pub guarded: bool,
     pub cfg: NetCfg,
@@ -1122,6 +1123,9 @@ fn run_inner(sc: &Scenario, keep: bool) -> (Report, u32) {
         udp_keep: Vec::new(),
         handshake_acked: Vec::new(),
     };
+    if wildcard_multi_addr(sc) {
+        sim.rep.probes.inc("wildcard_listener_reached_under_several_addresses");
+    }
     let r = core::catch(|| execute(&mut sim));
     let Sim { d, log, mut rep, mut v, herr, cs, ls, strays, udp_keep, nontrivial, wire_pkts, .. } = sim;
     match r {
@@ -1196,7 +1200,9 @@ fn gen_scenario(rng: &mut Rng, tier: Tier) -> Scenario {
 }
 
 fn gen_scenario_raw(rng: &mut Rng, tier: Tier) -> Scenario {
-    let guarded = !rng.chance(1, 20);
+    // no known finding is open for C13: nothing is steered around any more (the guard for
+    // C13-F3, one destination address per wildcard listener, went with fix f6c7a1b)
+    let guarded = false;
     let v6 = rng.chance(1, 6);
     let addr = |h: usize, k: usize| if v6 { format!("fd00::{h}:{}", k + 1) } else { format!("10.0.{h}.{}", k + 1) };
     let nclients = rng.usize(1, 2);
